@@ -27,7 +27,8 @@ type attrs struct {
 	SubNum byte   `json:"sub_segment_num"`
 	SubExp byte   `json:"sub_segments_expected"`
 	Noise  uint32 `json:"-"`
-	// 0 time_signal, 1 splice_insert returning to the network, 2 splice_insert leaving it
+	// 0 time_signal, 1 splice_insert returning to the network, 2 splice_insert leaving it,
+	// 3 immediate splice_insert, 4 splice_null (3 and 4: CanClose only; the signal time is the adjusted time)
 	Carrier int `json:"carrier"`
 }
 
@@ -74,6 +75,26 @@ func mk(a attrs) D {
 	}
 	if order >= 1 {
 		s.SetDescriptors([]D{d})
+	}
+	if a.HasPTS && a.Noise != 0 && a.Carrier >= 3 {
+		// carriers whose command has no time of its own: the signal time is the adjusted time alone
+		if a.Carrier == 3 {
+			si := scte35.CreateSpliceInsertCommand()
+			si.SetIsProgramSplice(true)
+			si.SetSpliceImmediate(true)
+			si.SetIsOut(r.Bool())
+			s.SetCommandInfo(si)
+		} else {
+			s.SetCommandInfo(scte35.CreateSpliceNull())
+		}
+		if r.Bool() {
+			s.SetDescriptors([]D{d})
+			s.SetAdjustPTS(gots.PTS(a.PTS))
+		} else {
+			s.SetAdjustPTS(gots.PTS(a.PTS))
+			s.SetDescriptors([]D{d})
+		}
+		return d
 	}
 	if a.HasPTS && a.Noise != 0 && a.Carrier != 0 {
 		// a splice_insert carrier (program splice with a time): out_of_network_indicator is the command's business
@@ -128,7 +149,7 @@ func run(c *mon.Ctx) {
 		for _, ne := range [][2]byte{{3, 3}, {3, 4}, {5, 4}, {2, 0}, {0, 0}, {255, 255}, {255, 254}, {0, 1}} {
 			numEq := ne[0] == ne[1]
 			for sv := 0; sv < 3; sv++ {
-				a := attrs{Type: byte(in), Event: 7, PTS: P, HasPTS: true, SegNum: ne[0], SegExp: ne[1], Noise: r.Uint32() | 1, Carrier: len(incs) % 3}
+				a := attrs{Type: byte(in), Event: 7, PTS: P, HasPTS: true, SegNum: ne[0], SegExp: ne[1], Noise: r.Uint32() | 1, Carrier: len(incs) % 5}
 				switch sv {
 				case 1:
 					a.HasSub, a.SubNum, a.SubExp = true, 2, 2
@@ -142,7 +163,7 @@ func run(c *mon.Ctx) {
 			for _, evEq := range []bool{true, false} {
 				for _, ptsEq := range []bool{true, false} {
 					b := attrs{Type: byte(out), Event: 7, PTS: P, HasPTS: true, SegNum: byte(r.Intn(4)), SegExp: byte(r.Intn(4)), Noise: r.Uint32() | 1}
-					b.Carrier = r.Intn(3)
+					b.Carrier = r.Intn(5)
 					if !evEq {
 						b.Event = uint32(r.PickU64([]uint64{8, 8, 6, 7 | 0x80000000, 7 + 1<<16}))
 					}
